@@ -31,7 +31,10 @@ STRENGTHENED = {
     'C18-m14',
     # wave 6 (C16-m18 and C11-m19: strengthened from the authors' reports before the first evaluation)
     'C01-m18', 'C02-m18', 'C02-m19', 'C03-m18', 'C04-m18', 'C04-m19', 'C05-m19', 'C08-m18', 'C09-m18', 'C11-m17', 'C11-m18',
-    'C11-m19', 'C12-m17', 'C12-m18', 'C12-m19', 'C13-m18', 'C14-m18', 'C16-m18', 'C18-m18', 'C19-m19', 'C20-m18'}
+    'C11-m19', 'C12-m17', 'C12-m18', 'C12-m19', 'C13-m18', 'C14-m18', 'C16-m18', 'C18-m18', 'C19-m19', 'C20-m18',
+    # wave 7 (C05-m20, C05-m21, C14-m21: strengthened from the authors' reports before the first evaluation)
+    'C02-m22', 'C05-m20', 'C05-m21', 'C05-m22', 'C06-m22', 'C07-m21', 'C07-m22', 'C09-m20', 'C09-m22', 'C10-m21',
+    'C11-m22', 'C14-m21', 'C17-m20', 'C18-m22', 'C20-m20', 'C20-m21'}
 
 
 def title(notes):
